@@ -69,6 +69,14 @@ func (g *Gen) NLVShape(shape string) vocab.NaturalLanguageValues {
 
 func (g *Gen) nlvShape(shape string) vocab.NaturalLanguageValues {
 	switch shape {
+	case "nlv9":
+		out := vocab.NaturalLanguageValues{}
+		for _, t := range []vocab.LangRef{"en", "fr", "de-AT", "ro", "pt-BR", "es", "it", "nl", "sv"} {
+			out = append(out, vocab.LangRefValue{Ref: t, Value: g.Text()})
+		}
+		return out
+	case "nlv-long-text":
+		return vocab.NaturalLanguageValues{{Ref: vocab.NilLangRef, Value: vocab.Content(strings.Repeat(string(g.Text())+" ", 400))}}
 	case "nlv-empty":
 		return vocab.NaturalLanguageValues{} // what the constructors pre-allocate
 	case "nlv1u":
@@ -125,7 +133,7 @@ func ItemShapes(inList bool) []string {
 	}
 	s = append(s, "objv:Object", "objv:Activity", "objv:Actor", "obj-idonly", "link-href", "link-full")
 	if !inList {
-		s = append(s, "obj-typeonly", "obj-neither", "list1", "list2", "list3", "iris2")
+		s = append(s, "obj-typeonly", "obj-neither", "list1", "list2", "list3", "iris2", "list9", "iris17")
 	}
 	return s
 }
@@ -175,6 +183,14 @@ func (g *Gen) ItemShape(shape string) vocab.Item {
 		return g.list(g.ItemShape("obj:Activity"), g.IRI(), g.ItemShape("link-full"))
 	case shape == "iris2":
 		return vocab.IRIs{g.IRI(), g.IRI()}
+	case shape == "list9":
+		return g.longList(9)
+	case shape == "iris17":
+		l := vocab.IRIs{}
+		for i := 0; i < 17; i++ {
+			l = append(l, g.IRI())
+		}
+		return l
 	}
 	panic("gen: unknown item shape " + shape)
 }
@@ -196,9 +212,23 @@ func (g *Gen) list(items ...vocab.Item) vocab.ItemCollection {
 	return out
 }
 
+// longList: lists long enough to cross the thresholds at which implementations switch to an index or a fast path
+func (g *Gen) longList(n int) vocab.ItemCollection {
+	items := make([]vocab.Item, 0, n)
+	kinds := []string{"iri", "obj:Object", "iri", "obj:Actor", "link-full", "iri", "obj:Place", "objv:Object"}
+	for i := 0; i < n; i++ {
+		items = append(items, g.ItemShape(kinds[i%len(kinds)]))
+	}
+	return g.list(items...)
+}
+
 // ListShape builds an item list of the given shape: "l:"+item shape, l2, l3.
 func (g *Gen) ListShape(shape string) vocab.ItemCollection {
 	switch shape {
+	case "l9":
+		return g.longList(9)
+	case "l33":
+		return g.longList(33)
 	case "l-empty":
 		return vocab.ItemCollection{} // set but empty: the normal form says absent
 	case "l2":
@@ -219,9 +249,9 @@ func FieldShapes(t reflect.Type, exact bool) []string {
 		for _, is := range ItemShapes(true) {
 			s = append(s, "l:"+is)
 		}
-		return append(s, "l2", "l3", "l-empty")
+		return append(s, "l2", "l3", "l-empty", "l9", "l33")
 	case t == NlvT:
-		return []string{"nlv1u", "nlv1t", "nlv2", "nlv3", "nlv-empty"}
+		return []string{"nlv1u", "nlv1t", "nlv2", "nlv3", "nlv-empty", "nlv9", "nlv-long-text"}
 	case t == TimeT:
 		if exact {
 			return []string{"time-s", "time-ns", "time-z"}
